@@ -439,6 +439,9 @@ func main() {
 			if f7 := f7Shaped(it.dir); f7 != "" {
 				key = "F7:haspath-exponential"
 				what += " — " + f7
+			} else if fs := fieldSensitiveOnly(it, o); fs != "" {
+				key = "C07f:fieldsens-nontermination"
+				what += " — " + fs
 			}
 		}
 		if strings.Contains(o.msg, "invalid memory address or nil pointer dereference") && strings.Contains(o.msg, "config.(*CodeIdentifier).equalOnNonEmptyFields") {
@@ -471,7 +474,17 @@ func main() {
 			if err != nil {
 				continue
 			}
-			files := map[string]string{"main.go": string(src), "default.yaml": cfgYaml(nil)}
+			files := map[string]string{"main.go": string(src)}
+			for name, opts := range baseConfigs {
+				files[name] = cfgYaml(opts)
+			}
+			fixed := 120 * time.Second
+			if bb, err := os.ReadFile(filepath.Join(d, "budget.txt")); err == nil {
+				var secs int
+				if _, err := fmt.Sscan(string(bb), &secs); err == nil && secs > 0 {
+					fixed = time.Duration(secs) * time.Second
+				}
+			}
 			if extra, err := os.ReadDir(d); err == nil {
 				for _, e := range extra {
 					n := e.Name()
@@ -487,11 +500,11 @@ func main() {
 				jobs = strings.Fields(string(jb))
 			}
 			items = append(items, &sweepItem{id: "corpus-" + filepath.Base(d), features: []string{"corpus:" + filepath.Base(d)},
-				files: files, jobs: jobs, fixed: 120 * time.Second, onDone: defaultFail})
+				files: files, jobs: jobs, fixed: fixed, onDone: defaultFail})
 		}
 	}
 	// one program per feature (alone), then random mixtures
-	nMix, maxFeat, nStdMix := 14, 5, 3
+	nMix, maxFeat, nStdMix := 10, 5, 2
 	if lib.Thorough() {
 		nMix, maxFeat, nStdMix = 150, 9, 30
 	}
@@ -593,6 +606,33 @@ func main() {
 	}
 	rep.Sample(map[string]any{"program": items[len(items)-1].id, "features": items[len(items)-1].features, "jobs": items[len(items)-1].jobs})
 	rep.Finish()
+}
+
+// fieldSensitiveOnly: the job timed out under a configuration with `field-sensitive: true`; does the same job
+// finish within the same budget when only that option is switched off? Then the divergence is the known
+// access-path growth of the field-sensitive traversal (finding C07f = C01c).
+func fieldSensitiveOnly(it *sweepItem, o outcome) string {
+	name, cfgFile, ok := strings.Cut(o.job, "@")
+	if !ok {
+		return ""
+	}
+	cfg := it.files[cfgFile]
+	if !strings.Contains(cfg, "field-sensitive: true") {
+		return ""
+	}
+	alt := strings.TrimSuffix(cfgFile, ".yaml") + ".nofs.yaml"
+	os.WriteFile(filepath.Join(it.dir, alt), []byte(strings.Replace(cfg, "field-sensitive: true", "field-sensitive: false", 1)), 0o644)
+	budget := time.Duration(o.ms) * time.Millisecond
+	if budget < 20*time.Second {
+		budget = 20 * time.Second
+	}
+	pr := runProgram(it.dir, []string{name + "@" + alt}, budget)
+	for _, r := range pr.outs {
+		if r.status == "ok" || r.status == "error" {
+			return fmt.Sprintf("the same job with field-sensitive: false ends with %s after %d ms: divergence of the field-sensitive traversal (access-path lists grow along a cycle, key never repeats)", r.status, r.ms)
+		}
+	}
+	return ""
 }
 
 func firstWords(s string, n int) string {
